@@ -81,7 +81,17 @@ DefOK(e) == "defs" \in DOMAIN e =>
    \A k \in 1..Len(e.defs) :
       LET df == e.defs[k] hols == {df.hols[j] : j \in 1..Len(df.hols)} mask == {df.mask[j] : j \in 1..Len(df.mask)} IN
       BitsToSet(df.bits, e.w0, e.n) = {d \in rng : Weekday(d) \notin mask /\ d \notin hols}
-ProjOK(e) == DefOK(e) /\ ("mb" \in DOMAIN e =>
+\* what the Python-facing getters show is what the object is: a Cal's `holidays` / `week_mask` are the list and mask it was
+\* built from; a union's `calendars` / `settlement_calendars` are its members (projection for projection); a named
+\* calendar's `name` is its name and its `union_cal` answers as the named calendar does
+SetOfSeq(s) == {s[j] : j \in 1..Len(s)}
+PyvOK(e) == "pyv" \in DOMAIN e =>
+   /\ e.pyv.o = "ok"
+   /\ CASE e.kind = "PyCal" -> ("defs" \in DOMAIN e => SetOfSeq(e.pyv.hols) = SetOfSeq(e.defs[1].hols) /\ SetOfSeq(e.pyv.mask) = SetOfSeq(e.defs[1].mask))
+        [] e.kind = "PyUnionCal" -> e.pyv.mb = e.mb /\ e.pyv.sb = e.sb /\ e.pyv.hs = e.hs
+        [] e.kind = "PyNamedCal" -> e.pyv.name = e.pyv.want_name /\ e.pyv.ubus = e.bus /\ e.pyv.ustl = e.stl
+        [] OTHER -> TRUE
+ProjOK(e) == DefOK(e) /\ PyvOK(e) /\ ("mb" \in DOMAIN e =>
    LET rng == e.w0..(e.w0 + e.n - 1) c == CalOfEvent(e) IN
    /\ c.bus = InterAll([k \in 1..Len(e.mb) |-> BitsToSet(e.mb[k], e.w0, e.n)], rng)
    /\ c.stl = (IF e.hs THEN InterAll([k \in 1..Len(e.sb) |-> BitsToSet(e.sb[k], e.w0, e.n)], rng) ELSE rng))
